@@ -334,24 +334,6 @@ Proof.
   intros line k r. apply tie_trim_regex; [reflexivity|]. apply (proj1 (re_matches_wf (RPlus r) line)).
 Qed.
 
-(** C05 over the translated dispatcher of line mode: whichever of the two algorithms it picks for a
-    request (the choice is the code's, translated), what is printed is the selection of the statement *)
-Theorem tie_C05_whichever_algorithm : forall (o : opt) (input : bytes) (bs : list bof) (x : bytes),
-  plain_opts o (o_eol o) -> o_trim o = None -> o_only_delimited o = false -> o_replace o = None ->
-  items (o_bounds o) = bs -> Forall item_nz bs -> bs <> [] ->
-  fwd_ok 1 (Z.of_nat (length (records (o_eol o) input))) bs -> last_marked bs ->
-  Forall (fun l => utf8_valid l = true) (records (o_eol o) input) -> records (o_eol o) input <> [] ->
-  utf8_valid input = true -> input <> [] -> strip_one_suffix (o_eol o) input <> [] ->
-  spec_items (records (o_eol o) input) (o_fallback o) (o_join o) [o_eol o] bs = Some x ->
-  gen_read_and_cut_lines input o = Ret (Some tt, x ++ [o_eol o]).
-Proof.
-  intros o input bs x Hp Ht Hs Hr Hb Hnz Hne Hok Hlm Hu Hl Hv Hi Hst Hx.
-  rewrite tie_read_and_cut_lines. unfold read_and_cut_lines. destruct (can_be_streamed o).
-  - destruct (C05_forward o (records (o_eol o) input) bs Hl Hne Hok Hlm Hu) as (x' & E1 & E2).
-    rewrite Hb. unfold lines_of. rewrite E2. rewrite Hx in E1. injection E1 as <-. reflexivity.
-  - rewrite (C05_buffered_same o input bs x Hp Ht Hs Hr Hb Hnz Hv Hi Hst Hx). reflexivity.
-Qed.
-
 (** C16: -p with -r R rewrites every run of matches to the literal R before cutting - the record becomes
     its greedy fields joined by R *)
 Theorem tie_C16_compress_rewrites_runs : forall (line nd : bytes) (r : re),
@@ -536,7 +518,28 @@ Proof.
   pose proof (tie_lines_forward_whole o input Hb Hn Hlen Hu2) as T. rewrite E2 in T. exact T.
 Qed.
 
+(** C05 over the translated line mode as a whole - the translated dispatcher calling the translated readers:
+    whichever of the two algorithms it picks for a request (the choice is the code's), what is printed is the
+    selection of the statement *)
+Theorem tie_C05_whichever_algorithm : forall (o : opt) (input : bytes) (x : bytes),
+  plain_opts o (o_eol o) -> o_trim o = None -> o_only_delimited o = false -> o_replace o = None ->
+  Forall item_nz (items (o_bounds o)) -> items (o_bounds o) <> [] ->
+  fwd_ok 1 (Z.of_nat (length (records (o_eol o) input))) (items (o_bounds o)) -> last_marked (items (o_bounds o)) ->
+  Forall (fun l => utf8_valid l = true) (records (o_eol o) input) -> records (o_eol o) input <> [] ->
+  (forall l, In l (records (o_eol o) input) -> utf8_valid (l ++ [o_eol o]) = utf8_valid l) ->
+  utf8_valid input = true -> input <> [] -> strip_one_suffix (o_eol o) input <> [] ->
+  Z.of_nat (length (items (o_bounds o))) + 1 <= usize_max -> Z.of_nat (length input) + 2 <= RsPrelude.i32_max ->
+  spec_items (records (o_eol o) input) (o_fallback o) (o_join o) [o_eol o] (items (o_bounds o)) = Some x ->
+  gen_read_and_cut_lines input o = Ret (Some tt, x ++ [o_eol o]).
+Proof.
+  intros o input x Hp Ht Hs Hr Hnz Hne Hok Hlm Hu Hl Hu2 Hv Hi Hst Hn Hlen Hx.
+  rewrite tie_read_and_cut_lines. destruct (can_be_streamed o).
+  - apply tie_C05_forward_reader; try assumption. unfold RsPrelude.i32_max in *. lia.
+  - apply (tie_C05_buffered_reader o input (items (o_bounds o)) x); try assumption; reflexivity.
+Qed.
+
 Print Assumptions tie_try_into_range_spec.
+Print Assumptions tie_C05_whichever_algorithm.
 Print Assumptions tie_C05_forward_reader.
 Print Assumptions tie_C13_lines_forward_finish.
 Print Assumptions tie_C19_last_bound_invariant.
@@ -549,7 +552,6 @@ Print Assumptions tie_C16_general_path.
 Print Assumptions tie_C01_record_as_a_function_of_its_fields.
 Print Assumptions tie_C10_cut_str_ignores_its_buffers.
 Print Assumptions tie_C16_compress_rewrites_runs.
-Print Assumptions tie_C05_whichever_algorithm.
 Print Assumptions tie_C16_fields_are_the_gaps.
 Print Assumptions tie_C16_trim.
 Print Assumptions tie_C19_forward_bounds_test.
